@@ -196,6 +196,93 @@ def _field_set_rule(ctx, prog, sa):
         ctx.check(key in must, sa, may[key], f"result['{key}'] stored on every path", f"result field '{key}' is stored on some paths only (e.g. not when an exception handler runs): results of different runs expose different field sets and result['{key}'] / result.{key} raises", construct=f"result[{key}] not stored on every path")
 
 
+class _NoTable(Exception):
+    pass
+
+
+def _label_by_cases(prog, sa, key: str, bparam: str):
+    """finite-domain evaluation of the branching that stores the literal result field ``key``: for every assignment of
+    (uncertainty level in 0..2, specify_target_noise, all-lower-infinite, all-upper-infinite, constraint absent) the label
+    that ends up stored.  -> {assignment tuple: label} ; raises _NoTable when a test is outside the atom language."""
+    import itertools
+
+    from .common import deref_expr
+    from ..terms import const_num
+
+    def bounds_atom(e):
+        """-> ('lb'|'ub', all_infinite: bool polarity) for np.all(np.isinf(b.lower_bounds)) and its spellings"""
+        c = canon(e)
+        for side, attr in (("lb", "lower_bounds"), ("ub", "upper_bounds")):
+            b = f"{bparam}.{attr}"
+            if c in (f"np.all(np.isinf({b}))", f"np.isinf({b}).all()", f"np.all(~np.isfinite({b}))", f"np.all(np.logical_not(np.isfinite({b})))", f"(not np.any(np.isfinite({b})))", f"np.all(np.abs({b}) == np.inf)"):
+                return side, True
+            if c in (f"np.any(np.isfinite({b}))", f"np.isfinite({b}).any()", f"np.any(~np.isinf({b}))", f"(not np.all(np.isinf({b})))"):
+                return side, False
+        return None
+
+    def ev(e, env):
+        if isinstance(e, ast.BoolOp):
+            vals = [ev(v, env) for v in e.values]
+            return all(vals) if isinstance(e.op, ast.And) else any(vals)
+        if isinstance(e, ast.UnaryOp) and isinstance(e.op, ast.Not):
+            return not ev(e.operand, env)
+        if isinstance(e, ast.Call) and canon(e.func) == "bool" and len(e.args) == 1:
+            return ev(e.args[0], env)
+        ba = bounds_atom(e)
+        if ba is not None:
+            return env[ba[0]] == ba[1]
+        c = canon(e)
+        if c == "OPT[specify_target_noise]":
+            return env["S"]
+        if c == "OS[uncertainty_handling_level]":
+            return env["L"] != 0
+        if isinstance(e, ast.Compare) and len(e.ops) == 1:
+            l, r, op = e.left, e.comparators[0], e.ops[0]
+            if canon(l) == f"{bparam}.non_box_cons" and isinstance(r, ast.Constant) and r.value is None and isinstance(op, (ast.Is, ast.IsNot, ast.Eq, ast.NotEq)):
+                return env["C"] == isinstance(op, (ast.Is, ast.Eq))
+            lv = env["L"] if canon(l) == "OS[uncertainty_handling_level]" else const_num(l)
+            rv = env["L"] if canon(r) == "OS[uncertainty_handling_level]" else const_num(r)
+            if lv is not None and rv is not None and "OS[uncertainty_handling_level]" in (canon(l), canon(r)):
+                import operator as _o
+
+                f = {ast.Lt: _o.lt, ast.LtE: _o.le, ast.Gt: _o.gt, ast.GtE: _o.ge, ast.Eq: _o.eq, ast.NotEq: _o.ne}.get(type(op))
+                if f is not None:
+                    return f(lv, rv)
+            if canon(l) == "OPT[specify_target_noise]" and isinstance(r, ast.Constant) and isinstance(r.value, bool) and isinstance(op, (ast.Is, ast.Eq, ast.IsNot, ast.NotEq)):
+                return (env["S"] == r.value) == isinstance(op, (ast.Is, ast.Eq))
+        raise _NoTable(canon(e))
+
+    def stores_key(st) -> bool:
+        return any(isinstance(n, ast.Subscript) and not isinstance(n.ctx, ast.Load) and canon(n.value) == "self" and const_str(n.slice) == key for n in ast.walk(st))
+
+    def run(stmts, env, cur):
+        for st in stmts:
+            if not stores_key(st):
+                continue
+            if isinstance(st, ast.Assign) and len(st.targets) == 1 and isinstance(st.targets[0], ast.Subscript):
+                v = deref_expr(prog, sa, st.value)
+                if isinstance(v, ast.IfExp):
+                    stack = [v]
+                    while isinstance(stack[-1], ast.IfExp):
+                        stack.append(stack[-1].body if ev(stack[-1].test, env) else stack[-1].orelse)
+                    v = stack[-1]
+                lab = const_str(v)
+                if lab is None:
+                    raise _NoTable(canon(st.value))
+                cur = lab
+            elif isinstance(st, ast.If):
+                cur = run(st.body if ev(deref_expr(prog, sa, st.test), env) else st.orelse, env, cur)
+            else:
+                raise _NoTable(norm_stmt(st)[:60])
+        return cur
+
+    out = {}
+    for L, S, lb, ub, C in itertools.product((0, 1, 2), (False, True), (False, True), (False, True), (False, True)):
+        env = {"L": L, "S": S, "lb": lb, "ub": ub, "C": C}
+        out[(L, S, lb, ub, C)] = run(sa.node.body, env, None)
+    return out
+
+
 def check(ctx):
     prog = ctx.prog
     R = roles_of(prog)
@@ -402,6 +489,16 @@ def check(ctx):
         and any("(OS[uncertainty_handling_level] <= 0)" in g or "not (0 < OS[uncertainty_handling_level])" in g for g in exp_det)
         and any("(0 < OS[uncertainty_handling_level])" in g for g in [lits["stochastic"]])
     )
+    if not ok_tt and tt:
+        # another branching order / comparison spelling: decide by cases over the levels 0..2 and the noise flag
+        try:
+            tab = _label_by_cases(prog, sa, "target_type", bparam)
+            bad = [(k, v) for k, v in tab.items() if v != ("deterministic" if k[0] == 0 else ("stochastic (specified noise)" if k[1] else "stochastic"))]
+            ok_tt = not bad
+            if bad:
+                lits["by cases"] = [f"level {bad[0][0][0]}, specified noise {bad[0][0][1]} -> {bad[0][1]!r}"]
+        except _NoTable:
+            pass
     ctx.check(bool(ok_tt), sa, tt[0][1] if tt else sa.node, "target_type = deterministic iff uncertainty level is 0", "target_type no longer follows the uncertainty-handling level (deterministic iff level 0)", construct="target_type mapping " + str(sorted((k or '?') + ':' + '&'.join(v) for k, v in lits.items())))
     pt = stores.get("problem_type", [])
     plits = {const_str(v): guard_canon(prog, sa, s) for v, s in pt}
@@ -413,7 +510,18 @@ def check(ctx):
         and any(f"({bparam}.non_box_cons is None)" == x for x in unc)
         and any(f"({bparam}.non_box_cons is None)" == x for x in plits.get("bound constraints", []))
     )
-    ctx.check(bool(ok_pt), sa, pt[0][1] if pt else sa.node, "problem_type follows bounds/constraint presence", "problem_type no longer follows (all bounds infinite, constraint absent) / (constraint absent) / otherwise", construct="problem_type mapping")
+    why_pt = ""
+    if not ok_pt and pt:
+        try:
+            tab = _label_by_cases(prog, sa, "problem_type", bparam)
+            bad = [(k, v) for k, v in tab.items() if v != ("non-box constraints" if not k[4] else ("unconstrained" if k[2] and k[3] else "bound constraints"))]
+            ok_pt = not bad
+            if bad:
+                k_, v_ = bad[0]
+                why_pt = f": with lower bounds {'all infinite' if k_[2] else 'partly finite'}, upper bounds {'all infinite' if k_[3] else 'partly finite'} and {'no constraint' if k_[4] else 'a constraint'} the label is {v_!r}"
+        except _NoTable:
+            pass
+    ctx.check(bool(ok_pt), sa, pt[0][1] if pt else sa.node, "problem_type follows bounds/constraint presence", "problem_type no longer follows (all bounds infinite, constraint absent) / (constraint absent) / otherwise" + why_pt, construct="problem_type mapping")
     # every stored key is allowed
     for key, lst in stores.items():
         if allowed is not None and key not in allowed:
